@@ -68,6 +68,11 @@ def run(tier, seed):
     res.coverage["evaluations"] = ev0 + res.coverage["witness_classes"].get("locked_book_levels", 0)
     res.coverage["distinct_nontrivial"] = dn0
     res.require_witness(["locked_book_levels"])
+    # whole runs: every round the run loop starts (after halts, rules, shocks, high-frequency orders) returns and clears the book
+    from ._r import run_whole_runs
+    from ..acceptors_r import acc_C03, on_exc_C03
+    run_whole_runs(res, "C03", tier, seed, [acc_C03], RULE + "; plus every matching round of every execution within deviation bound 1 of all whole-run scenario families", on_exc=on_exc_C03)
+    res.require_witness(["whole_run_rounds_leaving_a_two_sided_book"])
     return res
 
 
@@ -82,4 +87,8 @@ def replay(payload):
             return 1
         print("replay: no violation on this tree")
         return 0
+    if payload.get("engine") == "R":
+        from ._r import replay_whole_runs
+        from ..acceptors_r import acc_C03, on_exc_C03
+        return replay_whole_runs(payload, [acc_C03], on_exc_C03)
     return replay_generic(payload, factory)
